@@ -130,7 +130,7 @@ def flags_val(f):
     return vlist([vbool(f[k]) for k in FLAG_NAMES])
 
 
-def cli_lines(pats, f, data):
+def cli_lines(pats, f, data, via_file=False):
     with tempfile.TemporaryDirectory(dir=vlib.CACHE) as d:
         p = os.path.join(d, "in")
         open(p, "wb").write(data)
@@ -141,8 +141,13 @@ def cli_lines(pats, f, data):
                 cmd.append(fl)
         if not f["icase"] and not f["smart"]:
             cmd.append("-s")
-        for pt in pats:
-            cmd += ["-e", pt]
+        if via_file:
+            pf = os.path.join(d, "pats")
+            open(pf, "w", encoding="utf-8").write("".join(pt + "\n" for pt in pats))
+            cmd += ["-f", pf]
+        else:
+            for pt in pats:
+                cmd += ["-e", pt]
         cmd.append(p)
         r = subprocess.run(cmd, stdin=subprocess.DEVNULL, stdout=subprocess.PIPE, stderr=subprocess.PIPE)
         if r.returncode == 2:
@@ -196,9 +201,16 @@ def check_cases(ctx, cases, stats, cli_every=0):
         m_in.append(vlist([R.unparse(ref[0]), vlist([vbytes(cn) for cn, _ in sl])]))
         idx.append((i, sl))
     mo = vlib.model(1103, m_in)
+    want_cli = [i for i, _ in idx if cases[i].get("cli") or (cli_every and i % cli_every == 0)]
+    from concurrent.futures import ThreadPoolExecutor
+    with ThreadPoolExecutor(8) as ex:
+        cli_res = dict(zip(want_cli, ex.map(
+            lambda i: cli_lines(cases[i]["pats"], cases[i]["flags"], cases[i]["input"], cases[i].get("via_file", False)),
+            want_cli)))
     for k, (i, sl) in enumerate(idx):
         c, f, v = cases[i], cases[i]["flags"], parsed[i]
-        rep = dict(kind=101, pats=c["pats"], flags={x: y for x, y in f.items() if y}, input=c["input"].hex(), line=lines[i])
+        rep = dict(kind=101, pats=c["pats"], flags={x: y for x, y in f.items() if y}, input=c["input"].hex(), line=lines[i],
+                   via_file=c.get("via_file", False))
         if mo[k].startswith(("MISSING", "STACK", "PARSEFAIL")):
             ctx.violation("reference evaluation failed: %s" % mo[k][:40], rep, nfi=True)
             continue
@@ -225,17 +237,19 @@ def check_cases(ctx, cases, stats, cli_every=0):
         ctx.note_case(lines[i], anym and len(sl) > 1)
         if anym and len(sl) > 1:
             ctx.sample(dict(pats=c["pats"], flags=rep["flags"], input=repr(c["input"]), reported=expected))
-        if cli_every and i % cli_every == 0:
-            cl = cli_lines(c["pats"], f, c["input"])
+        if i in cli_res:
+            cl = cli_res[i]
             stats["cli_runs"] = stats.get("cli_runs", 0) + 1
+            if c.get("via_file"):
+                stats["cli_pattern_file"] = stats.get("cli_pattern_file", 0) + 1
             if cl is not None:
-                got["rg"] = cl
+                got["rg -f" if c.get("via_file") else "rg"] = cl
         for name, lst in got.items():
             if lst == expected:
                 continue
             diff = sorted(set(lst) ^ set(expected))
             # the known class: fast path, Unicode \B / start-half look-behind, line starting with continuation bytes
-            if name != "passthru" and has_look(v[5], (9, 16)) and all(
+            if name in ("slice", "reader") and has_look(v[5], (9, 16)) and all(
                     0x80 <= (sl[d - 1][0][:1] or b"\x00")[0] <= 0xbf for d in diff if d - 1 < len(sl)):
                 ctx.known(KNOWN_D17, "pats=%r flags=%r input=%r: %s reports %s, per-line semantics %s"
                           % (c["pats"], rep["flags"], c["input"], name, lst, expected))
@@ -243,6 +257,51 @@ def check_cases(ctx, cases, stats, cli_every=0):
             ctx.violation("%s reports lines %s but the pattern matches exactly lines %s of the input (differs at %s)"
                           % (name, lst, expected, diff), dict(rep, observed=got, expected=expected))
             break
+
+
+CASE_PAIRS = [("\\d", "\\D"), ("\\w", "\\W"), ("\\s", "\\S"), ("\\pL", "\\PL"), ("a", "A"), ("[a-z]", "[A-Z]"),
+              ("\\bx", "\\Bx"), ("foo", "FOO"), ("\\p{Greek}", "\\P{Greek}"), ("é", "É")]
+
+
+def gen_multi_case(rng):
+    """2-3 patterns given together (-e or -f), often differing only in case, under -i / -S / -s: the reported lines
+    must be the union of what each pattern matches under the flags"""
+    a, b = rng.choice(CASE_PAIRS)
+    pats = [a, b] if rng.random() < 0.5 else [b, a]
+    if rng.random() < 0.4:
+        pats.insert(rng.randint(0, 2), rng.choice(["q", "Z", "\\d", "\\S", "[0-9]x", a, b.lower(), a.upper()]))
+    f = dict.fromkeys(FLAG_NAMES, False)
+    c = rng.random()
+    if c < 0.45:
+        f["icase"] = True
+    elif c < 0.7:
+        f["smart"] = True
+    if rng.random() < 0.15:
+        f["invert"] = True
+    if rng.random() < 0.1:
+        f["word"] = True
+    if rng.random() < 0.1:
+        f["crlf"] = True
+    pool = [b"a", b"A", b"1", b" ", b"-", b"x", b"X", b"foo", b"FOO", b"\xc3\xa9", b"\xc3\x89", b"\xce\xb2", b"\xff", b"_", b"\t", b"Z", b"q", b"9x"]
+    lines = [b"".join(rng.choice(pool) for _ in range(rng.choice([0, 1, 1, 1, 2, 3]))) for _ in range(rng.randint(3, 8))]
+    lines += [b"", b"7", b" ", b"a"][:rng.randint(0, 4)]
+    data = term(f).join(lines) + (term(f) if rng.random() < 0.8 else b"")
+    return dict(pats=pats, flags=f, input=data, cli=True, via_file=rng.random() < 0.4)
+
+
+def gen_counted_case(rng):
+    pat, lines = R.gen_counted(rng)
+    f = dict.fromkeys(FLAG_NAMES, False)
+    if rng.random() < 0.3:
+        f["word"] = True
+    if rng.random() < 0.25:
+        f["invert"] = True
+    if rng.random() < 0.1:
+        f["icase"] = True
+    if rng.random() < 0.12:
+        f["crlf"] = True
+    data = term(f).join(lines) + (term(f) if rng.random() < 0.8 else b"")
+    return dict(pats=[pat], flags=f, input=data, cli=rng.random() < 0.3)
 
 
 CORPUS = [
@@ -264,6 +323,10 @@ CORPUS = [
     (["\\B "], {}, b"x\n\xa9\xa9 \n"),                           # D17
     (["x*"], {}, b"\n\nabc"),
     (["(?-u:\\xff)"], {}, b"a\xffb\n\xfe\n"),
+    (["\\b[A-Z]x:(ab){12};z"], {}, b"foo Qx:" + b"ab" * 12 + b";z bar\nfoo Qx:" + b"ab" * 11 + b";z bar\nfoo Qx:" + b"ab" * 13 + b";z\n"),
+    ([":(ab){12};"], dict(word=True), b"foo Qx :" + b"ab" * 12 + b"; z bar\nQ:" + b"ab" * 10 + b";\n"),
+    (["\\d", "\\D"], dict(icase=True), b"1\na\n\n"),
+    (["\\S", "\\s"], dict(icase=True), b" \nx\n"),
 ]
 
 
@@ -279,8 +342,12 @@ def run(ctx):
         f.update(kw)
         cases.append(dict(pats=pats, flags=f, input=inp))
     check_cases(ctx, cases, stats, cli_every=1)
+    special = [gen_multi_case(rng) for _ in range(ctx.count(220))] + [gen_counted_case(rng) for _ in range(ctx.count(200))]
+    stats["multi_pattern_case_pairs"] = ctx.count(220)
+    stats["counted_repetition_cases"] = ctx.count(200)
+    check_cases(ctx, special, stats)
     gen = []
-    for _ in range(ctx.count(6000)):
+    for _ in range(ctx.count(4500)):
         f = gen_flags(rng)
         pats = gen_pats(rng, f)
         gen.append(dict(pats=pats, flags=f, input=gen_input(rng, pats, f)))
